@@ -22,7 +22,7 @@ ASSUMPTIONS = [
     "pointer-valued members, struct padding and walltime fields are not state",
     "automatic cadence: rule 'before each step and once after the last one: if next <= t then next += interval, snapshot'",
 ]
-CLASSES = ["history/t_equals_first", "history/vanish", "history/appear", "history/shrink", "history/grow", "history/N0",
+CLASSES = ["history/lrescale", "history/t_equals_first", "history/vanish", "history/appear", "history/shrink", "history/grow", "history/N0",
            "history/switch", "history/variation", "history/reset"]
 
 SETTINGS = [("G", [1.0, 0.5, 39.47]), ("softening", [0.0, 1e-3]), ("ri_whfast.safe_mode", [0, 1]),
@@ -45,6 +45,7 @@ op = st.one_of(
     st.tuples(st.just("set"), st.integers(0, len(SETTINGS) - 1), st.integers(0, 2)),
     st.tuples(st.just("variation")),
     st.tuples(st.just("megno")),
+    st.tuples(st.just("lrescale"), st.sampled_from([-1.0, 3.5, 0.0])),
     st.tuples(st.just("rewind")),
     st.tuples(st.just("integrate_back")),
     st.tuples(st.just("snap")),
@@ -223,6 +224,10 @@ def run_history(case, ctx):
                     sim.init_megno(seed=3)
                     has_var = True
                     classes.add("variation")
+            elif kind == "lrescale" and has_var and sim.N_var_config > 0:
+                # documented knob of a variational configuration (-1 switches automatic rescaling off)
+                sim.var_config[0].lrescale = o[1]
+                classes.add("lrescale")
             elif kind == "rewind" and model:
                 settle(sim)
                 sim.t = model[0][0]          # e.g. reset the clock after a burn-in: same time as the first snapshot
